@@ -40,18 +40,89 @@ const maxResp = 0x1e00000 // DEMON_MAX_RESPONSE_LENGTH as documented: 30 MiB
 type op struct {
 	Op   string `json:"op"`             // enq | checkin
 	Size int    `json:"size,omitempty"` // payload bytes of the task
+	// enq: 1 = the task is for the linked (pivot) agent; it travels in the parent's queue
+	Target int `json:"target,omitempty"`
+	// checkin: where COMMAND_GET_JOB stands among the packages of the request:
+	// 0 alone | 1 [GET_JOB][output] | 2 [output][GET_JOB] | 3 [output][GET_JOB][output]
+	Form int `json:"form,omitempty"`
 }
 
 type seqCase struct {
-	Kind string `json:"kind"` // "seq"
-	Ops  []op   `json:"ops"`
+	Kind  string `json:"kind"`            // "seq"
+	Pivot bool   `json:"pivot,omitempty"` // the agent has a linked agent below it
+	Ops   []op   `json:"ops"`
 }
 
 type world struct {
-	r    *rig.Rig
-	h    *handlers.HTTP
-	sim  *rig.Sim
-	next uint32
+	r     *rig.Rig
+	h     *handlers.HTTP
+	sim   *rig.Sim
+	child *rig.Sim
+	next  uint32
+}
+
+// link registers a pivot agent below the world's agent (answer to a `pivot connect` task).
+func (w *world) link(c *lib.Ctx) error {
+	w.next++
+	req := w.next
+	rig.TaskSimple(w.r.TS, w.sim.Hex(), req)
+	w.sim.Checkin(w.h.GinEngine)
+	w.child = rig.NewSim(c.Rng, w.sim.ID^0x00010000)
+	if _, _, ok := w.sim.Checkin(w.h.GinEngine, demon.SmbConnect(req, w.child.RegisterBytes())); !ok {
+		return fmt.Errorf("pivot registration not answered")
+	}
+	if len(w.r.TS.Agents.Agents) != 2 {
+		return fmt.Errorf("pivot registration: %d sessions", len(w.r.TS.Agents.Agents))
+	}
+	return nil
+}
+
+// checkin sends a check-in of the given form and decodes the reply.
+func (w *world) checkin(form int) (rig.Resp, []demon.Task, bool) {
+	out := func(s string) demon.Callback {
+		var p demon.Pkg
+		p.Str(s)
+		return demon.Callback{Cmd: 90, ReqID: 0x0badbad0, Body: p.B}
+	}
+	var body []byte
+	switch form {
+	case 1:
+		body = demon.CheckinAt(w.sim.ID, w.sim.Key, w.sim.IV, 0, out("after"))
+	case 2:
+		body = demon.CheckinAt(w.sim.ID, w.sim.Key, w.sim.IV, 1, out("before"))
+	case 3:
+		body = demon.CheckinAt(w.sim.ID, w.sim.Key, w.sim.IV, 1, out("before"), out("after"))
+	default:
+		return w.sim.Checkin(w.h.GinEngine)
+	}
+	resp := rig.Post(w.h.GinEngine, "/", body, nil)
+	if resp.Panic != nil || resp.Status != 200 {
+		return resp, nil, false
+	}
+	t, ok := demon.ParseTasks(resp.Body, w.sim.Key, w.sim.IV)
+	return resp, t, ok
+}
+
+// innerID returns the request id of the task a COMMAND_PIVOT task carries for the linked
+// agent ([12][child id][frame: id, size, task stream under the child's key]).
+func (w *world) innerID(t demon.Task) (uint32, bool) {
+	if w.child == nil || t.Cmd != demon.CmdPivot {
+		return 0, false
+	}
+	rd := demon.Rd{B: t.Body}
+	sub, next, frame := rd.I32(), rd.I32(), rd.Bytes()
+	if rd.Err || sub != demon.PivotSmbCmd || next != w.child.ID {
+		return 0, false
+	}
+	id, pkg, ok := demon.SmbFrame(frame)
+	if !ok || id != w.child.ID {
+		return 0, false
+	}
+	inner, ok := demon.ParseTasks(pkg, w.child.Key, w.child.IV)
+	if !ok || len(inner) != 1 {
+		return 0, false
+	}
+	return inner[0].ReqID, true
 }
 
 func newWorld(c *lib.Ctx, id uint32) (*world, error) {
@@ -74,14 +145,18 @@ var bigBuf = bytes.Repeat([]byte{0xA5}, 41<<20)
 
 // enqueue issues one task whose payload has `size` bytes: a shellcode-inject task carries
 // the binary inline ([way][technique][x64][B binary][B args][pid]), size 0 = sleep task.
-func (w *world) enqueue(size int) uint32 {
+func (w *world) enqueue(size int, target ...int) uint32 {
 	w.next++
 	id := w.next
+	hex := w.sim.Hex()
+	if len(target) > 0 && target[0] == 1 && w.child != nil {
+		hex = w.child.Hex()
+	}
 	if size == 0 {
-		rig.Task(w.r.TS, w.sim.Hex(), 11, id, map[string]any{"Arguments": "5;5"})
+		rig.Task(w.r.TS, hex, 11, id, map[string]any{"Arguments": "5;5"})
 		return id
 	}
-	rig.Task(w.r.TS, w.sim.Hex(), 24, id, map[string]any{"Way": "Inject", "Technique": "default", "Arch": "x64", "PID": "4242",
+	rig.Task(w.r.TS, hex, 24, id, map[string]any{"Way": "Inject", "Technique": "default", "Arch": "x64", "PID": "4242",
 		"Binary": base64.StdEncoding.EncodeToString(bigBuf[:size]), "Argument": ""})
 	return id
 }
@@ -98,15 +173,33 @@ func runSeq(c *lib.Ctx, cs seqCase) (sig, what string) {
 		return
 	}
 	defer w.r.Close()
+	if cs.Pivot {
+		if err := w.link(c); err != nil {
+			c.Inconclusive("seq: " + err.Error())
+			return
+		}
+	}
 	var q []modelTask
 	delivered := map[uint32]int{}
 	for i, o := range cs.Ops {
 		switch o.Op {
 		case "enq":
-			id := w.enqueue(o.Size)
+			id := w.enqueue(o.Size, o.Target)
 			q = append(q, modelTask{id, o.Size})
+			if o.Target == 1 && w.child != nil {
+				c.Observe("seq.task-for-linked-agent", 1)
+			}
 		case "checkin":
-			resp, tasks, ok := w.sim.Checkin(w.h.GinEngine)
+			resp, tasks, ok := w.checkin(o.Form)
+			if o.Form != 0 {
+				c.Observe(fmt.Sprintf("seq.checkin-form-%d", o.Form), 1)
+			}
+			// a task for the linked agent arrives wrapped: it is identified by the request id inside
+			for k := range tasks {
+				if id, ok := w.innerID(tasks[k]); ok {
+					tasks[k].ReqID = id
+				}
+			}
 			if resp.Panic != nil {
 				return lib.PanicSig(resp.Panic, resp.Stack), fmt.Sprintf("op %d: check-in panics: %v", i, resp.Panic)
 			}
@@ -157,6 +250,11 @@ func runSeq(c *lib.Ctx, cs seqCase) (sig, what string) {
 	// drain: everything still queued must come out, in order, within len(q) check-ins
 	for n := len(q); n > 0 && len(q) > 0; n-- {
 		_, tasks, ok := w.sim.Checkin(w.h.GinEngine)
+		for k := range tasks {
+			if id, ok := w.innerID(tasks[k]); ok {
+				tasks[k].ReqID = id
+			}
+		}
 		if !ok || (len(tasks) == 1 && tasks[0].Cmd == demon.CmdNoJob) || len(tasks) == 0 {
 			return "seq:never-delivered", fmt.Sprintf("drain: %d tasks are queued (first %#x, %d bytes) but the check-in delivers nothing", len(q), q[0].id, q[0].size)
 		}
@@ -509,7 +607,7 @@ func runConc(c *lib.Ctx, w *world, cs concCase, agentID uint32) (sig, what strin
 }
 
 func run(c *lib.Ctx) {
-	c.Rule("seq: all sequences of length <= 6 over {enq small, enq big(16 MiB), check-in} (exhaustive) + random sequences with size classes {0, 1 KiB, 10 MiB, 30 MiB-64, 30 MiB, 40 MiB}; chunk: uploads of {0, 1, C-1, C, C+1} (+{2C-1, 2C, 2C+1} thorough) bytes, C = 30 MiB; conc: 2-3 operator goroutines x 2-4 enqueues against a consumer doing 3-5 check-ins (+ drain) on one agent, hooks queue.add / queue.get.writeback = none|yield|sleep; distinct = distinct case description (+ history index for conc); non-trivial = at least one task delivered")
+	c.Rule("seq: all sequences of length <= 6 over {enq small, enq big(16 MiB), check-in} (exhaustive) + directed cases (COMMAND_GET_JOB alone / first / last / in the middle of a multi-package request with a task waiting; tasks for a linked agent, which travel wrapped in the parent's queue, against the batch limit) + random sequences (half of them with a linked agent, check-in form random) with size classes {0, 1 KiB, 10 MiB, 30 MiB-64, 30 MiB, 40 MiB}; chunk: uploads of {0, 1, C-1, C, C+1} (+{2C-1, 2C, 2C+1} thorough) bytes, C = 30 MiB; conc: 2-3 operator goroutines x 2-4 enqueues against a consumer doing 3-5 check-ins (+ drain) on one agent, hooks queue.add / queue.get.writeback = none|yield|sleep; distinct = distinct case description (+ history index for conc); non-trivial = at least one task delivered")
 	c.Assume("the reference decoder reads the reply as CommandDispatcher does", "the size rule asserted: a reply with more than one task carries less than 30 MiB of task data (a single larger task is delivered alone); maximal batching is not demanded",
 		"concurrent histories are stamped at the client boundary (before the call, after the reply) with one atomic counter")
 	if c.Replay != nil {
@@ -573,16 +671,47 @@ func run(c *lib.Ctx) {
 		depth = 6
 	}
 	rec(nil, depth)
+	// --- seq directed: every check-in form with a task waiting (own and linked agent's), and
+	// the batch limit over tasks that travel wrapped for the linked agent ---
+	var directed []seqCase
+	for f := 0; f <= 3; f++ {
+		directed = append(directed,
+			seqCase{Kind: "seq", Ops: []op{{Op: "enq"}, {Op: "checkin", Form: f}, {Op: "checkin", Form: f}}},
+			seqCase{Kind: "seq", Pivot: true, Ops: []op{{Op: "enq", Target: 1}, {Op: "checkin", Form: f}, {Op: "enq"}, {Op: "enq", Target: 1}, {Op: "checkin", Form: f}}})
+	}
+	big := 16 << 20
+	directed = append(directed,
+		seqCase{Kind: "seq", Pivot: true, Ops: []op{{Op: "enq", Size: big, Target: 1}, {Op: "enq", Size: big, Target: 1}, {Op: "enq", Size: big, Target: 1}, {Op: "checkin"}, {Op: "checkin"}}},
+		seqCase{Kind: "seq", Pivot: true, Ops: []op{{Op: "enq", Size: big, Target: 1}, {Op: "enq", Size: big}, {Op: "enq", Target: 1}, {Op: "checkin", Form: 2}, {Op: "checkin"}}},
+		seqCase{Kind: "seq", Pivot: true, Ops: []op{{Op: "enq", Size: 40 << 20, Target: 1}, {Op: "enq", Target: 1}, {Op: "checkin"}, {Op: "checkin", Form: 3}}},
+		seqCase{Kind: "seq", Pivot: true, Ops: []op{{Op: "enq", Size: maxResp - 64, Target: 1}, {Op: "enq", Size: 1 << 10, Target: 1}, {Op: "checkin"}, {Op: "checkin"}}})
+	for i, cs := range directed {
+		if !c.Mine(i) {
+			continue
+		}
+		b, _ := json.Marshal(cs)
+		c.Cur("seq", b)
+		c.Eval()
+		c.DistinctBytes(b)
+		c.Observe("seq.directed", 1)
+		if s, m := runSeq(c, cs); s != "" {
+			c.Violation(s, m, cs)
+		}
+	}
 	// --- seq random with boundary sizes ---
 	sizes := []int{0, 0, 0, 1 << 10, 10 << 20, maxResp - 64, maxResp, 40 << 20}
 	n := c.N(48, 1500)
 	for i := 0; i < n; i++ {
-		cs := seqCase{Kind: "seq"}
+		cs := seqCase{Kind: "seq", Pivot: i%2 == 1}
 		for k := 0; k < 3+c.Rng.Intn(8); k++ {
 			if c.Rng.Intn(3) == 0 {
-				cs.Ops = append(cs.Ops, op{Op: "checkin"})
+				cs.Ops = append(cs.Ops, op{Op: "checkin", Form: c.Rng.Intn(4)})
 			} else {
-				cs.Ops = append(cs.Ops, op{Op: "enq", Size: sizes[c.Rng.Intn(len(sizes))]})
+				o := op{Op: "enq", Size: sizes[c.Rng.Intn(len(sizes))]}
+				if cs.Pivot && c.Rng.Intn(2) == 0 {
+					o.Target = 1
+				}
+				cs.Ops = append(cs.Ops, o)
 			}
 		}
 		b, _ := json.Marshal(cs)
